@@ -45,12 +45,13 @@ Qed.
 
 (* clear() between the two halves' messages: p0 is queued and watched,
    controller 5 uses the watch up, clear() runs before the non-realtime side
-   has seen the midi-use-CC.  The bind of clear() crosses it (nocross = false)
-   and removes 5 from the pending set - which nothing else would have done,
-   the midi-use-CC finds no address.  The remove-watch meets a watch count of
-   0.  Afterwards p1 is learned by controller 6 as it should be. *)
+   has seen the midi-use-CC.  The bind of clear() crosses it (nocross = false).
+   The midi-use-CC finds no address and is answered with the unchanged
+   mapping, which releases 5; the remove-watch meets a watch count of 0.
+   Afterwards p1 is learned by controller 6 as it should be.  (Before the D19
+   fix it was the bind of clear() that happened to release 5.) *)
 Definition clear_cross_history : list event :=
-  [ EMap 0 true; EDelR; ECC 5 64 1 false; EClear; EDelN; EDelR; EDelR;
+  [ EMap 0 true; EDelR; ECC 5 64 1 false; EClear; EDelN; EDelR; EDelR; EDelR;
     EMap 1 true; EDelR; ECC 6 1 1 false; EDelN; EDelR; ECC 6 127 1 false; ECC 5 3 1 false ].
 
 Lemma clear_cross_survives :
@@ -58,10 +59,10 @@ Lemma clear_cross_survives :
     run cross_ports world0 clear_cross_history = (tr, Some fin) /\
     nocross clear_cross_history tr = false /\
     tr = arun cross_ports astate0 clear_cross_history /\
-    nth_error tr 4 = Some [OA 5 None] /\
+    nth_error tr 4 = Some [OA 5 None; OB] /\
     watch (wr fin) = 0 /\ psize (pending (wr fin)) = 0 /\
     assigned_targets 6 tr = [(1, true)] /\
-    option_map msgs_of (nth_error tr 12) = Some [ {| maddr := 1; mvalue := VFloat (bi_float {| bmin := (0, 0); bmax := (1, 0) |} (127 * 128)) |} ].
+    option_map msgs_of (nth_error tr 13) = Some [ {| maddr := 1; mvalue := VFloat (bi_float {| bmin := (0, 0); bmax := (1, 0) |} (127 * 128)) |} ].
 Proof.
   eexists. eexists.
   split; [vm_compute; reflexivity |].
